@@ -89,10 +89,19 @@ class Ctx:
 
     def decide(self, cond):
         cond = z3.simplify(cond)
-        if z3.is_true(cond):
-            return True
-        if z3.is_false(cond):
-            return False
+        if z3.is_true(cond) or z3.is_false(cond):
+            # logged like every other decision: the re-execution of a path is aligned with its prefix by the NUMBER of
+            # decisions, and whether the simplifier reduces a condition to a literal may differ between two executions
+            # of the same code (it depends on the order in which z3 terms were created)
+            lit = z3.is_true(cond)
+            i = len(self.log)
+            if i < len(self.prefix) and self.prefix[i][0] != lit:
+                if self.prefix[i][1]:
+                    raise Unsupported("re-execution of a path diverged from its recorded decisions")
+                # the recorded branch is the other one, which is infeasible here: this path does not exist
+                raise Unsupported("infeasible path reached")
+            self.log.append((lit, True))
+            return lit
         i = len(self.log)
         if i < len(self.prefix):
             choice, forced = self.prefix[i]
